@@ -274,3 +274,123 @@ def label_noninterference(index):
             "loc": "%s:%d" % (fi.path.replace(index.repo + "/", ""), fi.lines[0]),
             "function": name, "kind": "frame", "path": 0, "inputs": {}, "solver_output": None})
     return out
+
+
+# ---------------------------------------------------------------------------------- cost roles
+# DESIGN.md F29/F46: "cost roles reach the tables as uf, ub, wd, rd".  A dimensional check: every
+# parameter that carries a step/transfer cost has a role (F forward step, B backward step, W disk
+# write, R disk read, WV/RV per-level vectors); at every call the argument's role must be the
+# parameter's role.  Roles are tracked through plain assignments, dict reads params["uf"] and list
+# literals [0, wd].  (C07: a positional mix-up is invisible to tests that use uf == ub, wd == rd.)
+ROLES = {
+    "seq.revolve.get_opt_0_table": {"uf": "F", "ub": "B"},
+    "seq.disk_revolve.get_opt_inf_table": {"uf": "F", "ub": "B", "rd": "R", "wd": "W"},
+    "seq.hrevolve.get_hopt_table": {"wvect": "WV", "rvect": "RV", "ub": "B", "uf": "F"},
+    "seq.utils.revolver_parameters": {"wd": "W", "rd": "R", "uf": "F", "ub": "B"},
+    # revolve() is memory-only: its rd / wd parameters are only stored in the parameter dictionary
+    # (its contract - makespan == OPT0 + (l+1)*uf - does not mention them), so they carry no role
+    "seq.revolve.revolve": {"fwd_cost": "F", "bwd_cost": "B"},
+    "seq.disk_revolve.disk_revolve": {"rd": "R", "wd": "W", "fwd_cost": "F", "bwd_cost": "B"},
+    "seq.periodic_disk_revolve.periodic_disk_revolve": {"rd": "R", "wd": "W", "uf": "F", "ub": "B"},
+    "seq.periodic_disk_revolve.mxrr_close_formula": {"uf": "F", "rd": "R", "wd": "W"},
+    "seq.hrevolve.hrevolve": {"wvect": "WV", "rvect": "RV", "fwd_cost": "F", "bwd_cost": "B"},
+    "seq.hrevolve.hrevolve_aux": {"wvect": "WV", "rvect": "RV"},
+    "seq.hrevolve.hrevolve_recurse": {"wvect": "WV", "rvect": "RV"},
+    "hrevolve.HRevolve.__init__": {"uf": "F", "ub": "B", "wd": "W", "rd": "R"},
+    "hrevolve.DiskRevolve.__init__": {"uf": "F", "ub": "B", "wd": "W", "rd": "R"},
+    "hrevolve.PeriodicDiskRevolve.__init__": {"uf": "F", "ub": "B", "wd": "W", "rd": "R"},
+    "hrevolve.Revolve.__init__": {"uf": "F", "ub": "B", "wd": "W", "rd": "R"},
+}
+DICT_ROLES = {"uf": "F", "ub": "B", "wd": "W", "rd": "R"}
+# call sites where write and read cost are exchanged on purpose-or-harmlessly: the Disk-Revolve
+# recurrences use only wd + rd and every disk checkpoint is written once and read once, so the
+# sequences and their cost are symmetric in (wd, rd); checked on boxes with wd != rd (C07, C19)
+ROLE_SWAPS_ALLOWED = {
+    ("hrevolve.DiskRevolve.__init__", "disk_revolve"): "wd <-> rd: symmetric (only wd + rd is used)",
+    ("hrevolve.PeriodicDiskRevolve.__init__", "periodic_disk_revolve"): "wd <-> rd: symmetric (only wd + rd is used)",
+}
+
+
+def _callee_key(index, caller, name):
+    cands = [k for k in ROLES if k.split(".")[-1] == name or
+             (k.endswith(".__init__") and k.split(".")[-2] == name)]
+    if not cands:
+        return None
+    same = [k for k in cands if k.rsplit(".", 1)[0] == caller.module]
+    return (same or cands)[0]
+
+
+def cost_roles(index):
+    out = []
+    for name, fi in sorted(index.funcs.items()):
+        fn = fi.node
+        env = dict(ROLES.get(name, {}))
+        # dict-of-parameters variables
+        dict_vars = set()
+
+        def role_of(e):
+            if isinstance(e, ast.Name):
+                return env.get(e.id)
+            if isinstance(e, ast.Subscript) and isinstance(e.value, ast.Name) and e.value.id in dict_vars \
+                    and isinstance(e.slice, ast.Constant) and e.slice.value in DICT_ROLES:
+                return DICT_ROLES[e.slice.value]
+            if isinstance(e, (ast.List, ast.Tuple)) and len(e.elts) == 2:
+                r = role_of(e.elts[1])
+                return {"W": "WV", "R": "RV"}.get(r)
+            return None
+        bad, checked = [], 0
+        for n in ast.walk(fn):
+            if isinstance(n, ast.Assign) and len(n.targets) == 1 and isinstance(n.targets[0], ast.Name):
+                v = n.value
+                if isinstance(v, ast.Call) and isinstance(v.func, ast.Name) and \
+                        v.func.id in ("revolver_parameters", "dict"):
+                    dict_vars.add(n.targets[0].id)
+        if fn.args.kwarg is not None:
+            dict_vars.add(fn.args.kwarg.arg)
+        changed = True
+        while changed:
+            changed = False
+            for n in ast.walk(fn):
+                if isinstance(n, ast.Assign) and len(n.targets) == 1 and isinstance(n.targets[0], ast.Name):
+                    r = role_of(n.value)
+                    t = n.targets[0].id
+                    if r is not None and env.get(t) != r and t not in ROLES.get(name, {}):
+                        env[t] = r
+                        changed = True
+        for n in ast.walk(fn):
+            if not (isinstance(n, ast.Call) and isinstance(n.func, ast.Name)):
+                continue
+            key = _callee_key(index, fi, n.func.id)
+            if key is None:
+                continue
+            callee = index.funcs.get(key)
+            if callee is None:
+                continue
+            params = [a.arg for a in callee.node.args.args]
+            if params and params[0] == "self":
+                params = params[1:]
+            pairs = list(zip(params, n.args)) + [(k.arg, k.value) for k in n.keywords if k.arg]
+            for pname, arg in pairs:
+                want = ROLES[key].get(pname)
+                got = role_of(arg)
+                if want is None or got is None:
+                    continue
+                checked += 1
+                # a per-level vector of write (read) costs is a write (read) cost
+                if got[0] != want[0]:
+                    why = ROLE_SWAPS_ALLOWED.get((name, n.func.id))
+                    if why and {got, want} <= {"W", "R"}:
+                        continue
+                    bad.append("line %d: %s(%s=%s) passes a %s cost where a %s cost is expected" % (
+                        n.lineno, n.func.id, pname, ast.unparse(arg), got, want))
+        if checked == 0 and not bad:
+            continue
+        out.append({
+            "name": "frame.cost_roles#%s" % name, "props": ["C07", "C19", "C05"],
+            "status": "discharged" if not bad else "failed", "backend": "ast-dataflow", "time_s": 0.0,
+            "model": None if not bad else {"role_mismatches": bad},
+            "clause": "at each of the %d cost-carrying argument positions the argument's role (forward/backward "
+                      "step, disk write/read, per-level vectors) is the parameter's role" % checked,
+            "loc": "%s:%d" % (fi.path.replace(index.repo + "/", ""), fi.lines[0]),
+            "function": name, "kind": "frame", "path": 0, "inputs": {}, "solver_output": None})
+    return out
